@@ -39,6 +39,12 @@ def gen_rich_logical(rng, depth):
     r = rng.random()
     if depth <= 0 or r < 0.3:
         r2 = rng.random()
+        if r2 < 0.1:
+            # comparisons / membership tests as operands of comparisons (accepted by the parser through grouping)
+            inner = ["op", rng.choice(Q.CMP_OPS + ["in"]), Q.gen_ext_comparable(rng, 0), ["lit", rng.choice([1, "a", True])]]
+            if rng.random() < 0.5:
+                return ["op", rng.choice(["==", "!=", "in", "contains"]), inner, ["lit", True]]
+            return ["op", rng.choice(["==", "in"]), Q.gen_ext_comparable(rng, 0), inner]
         if r2 < 0.4:
             return ["op", rng.choice(Q.CMP_OPS + ["<>"]), Q.gen_ext_comparable(rng, 1), ["lit", rng.choice(LITS)]]
         return Q.gen_ext_logical(rng, 0)
@@ -131,7 +137,8 @@ def decode(sx, case):
         model = {"compile": ["ok", Q.canon_ast(FUZZ.sx_query_to_ast(sx[3]))], "str": SX.sx2s(sx[2]), "recompile": ["err", sx[1]]}
         return {"model": model, "spec": {"recompiles": True, "fixed_point": True, "same_results": True}, "in_domain": True,
                 "model_unsupported": sx[1] in ("unsupported", "fuel")}
-    _, q, t1, q2, t2, ev1, ev2, gate, ext = sx
+    _, q, t1, q2, t2, ev1, ev2, gate, ext = sx[:9]
+    bridges = {b[0]: b[1] for b in sx[9:]}
 
     def evs(x):
         return [["ok", decode_matches(r[1])] if r[0] == "ok" else ["err", r[1]] for r in x]
@@ -139,8 +146,16 @@ def decode(sx, case):
              "recompile": ["ok", Q.canon_ast(FUZZ.sx_query_to_ast(q2))],
              "str2": SX.sx2s(t2[1]) if t2[0] == "ok" else ["err", t2[1]], "eval1": evs(ev1), "eval2": evs(ev2)}
     unsupported = "unsupported" in SX.dump([t2, ev1, ev2])
+    model["bridges"] = bridges
     return {"model": model, "spec": {"recompiles": True, "fixed_point": True, "same_results": True}, "in_domain": True,
             "model_unsupported": unsupported}
+
+
+def for_model(case, res):
+    out = dict(res)
+    if res.get("compile", ["err"])[0] == "ok" and "eval2" in res:
+        out["bridges"] = {"lex-bridge": "true", "parse-bridge": "true", "norm-is-reparse": "true"}
+    return out
 
 
 def project(case, res, dec=None):
